@@ -417,6 +417,78 @@ theorem wfSetL_map {α : Type} (f : α → Tree) (m : Nat) (deep : List (List Na
   | [] => rfl
   | a :: l => by simp only [List.map, wfSetL, Bool.and_eq_true]; exact ⟨hf a, wfSetL_map f m deep hf l⟩
 
+
+/-! ### well-formedness of a node from facts about its children -/
+theorem wfStepL_of_forall : ∀ kids : List Tree,
+    (∀ k ∈ kids, (k.info.stepCalls = 1 ∧ wfStep k = true) ∨ anyI k = false) → wfStepL kids = true
+  | [], _ => rfl
+  | t :: ts, h => by
+    simp only [wfStepL, Bool.and_eq_true, Bool.or_eq_true, Bool.not_eq_true', beq_iff_eq]
+    exact ⟨(h t (List.mem_cons_self ..)).imp id id, wfStepL_of_forall ts (fun k hk => h k (List.mem_cons_of_mem _ hk))⟩
+
+theorem wfStep_node {s : Info} {i : Nat} {iv : Option Nat} {h : List Nat} {kids : List Tree}
+    (hs : (if s.hasI then s.stepSelf == 1 else true) = true)
+    (hk : ∀ k ∈ kids, (k.info.stepCalls = 1 ∧ wfStep k = true) ∨ anyI k = false) :
+    wfStep (.node s i iv h kids) = true := by
+  simp only [wfStep, Bool.and_eq_true]
+  exact ⟨hs, wfStepL_of_forall kids hk⟩
+
+theorem wfSaveL_of_forall (gOut gIn hasIv : Bool) : ∀ kids : List Tree,
+    (∀ k ∈ kids, (k.info.saveOut = 1 ∧ k.info.saveIn = 0 ∧ wfSave gOut k = true) ∨
+      (hasIv = true ∧ k.info.saveOut = 0 ∧ k.info.saveIn = 1 ∧ wfSave gIn k = true) ∨ anyHist k = false) →
+    wfSaveL gOut gIn hasIv kids = true
+  | [], _ => rfl
+  | t :: ts, h => by
+    simp only [wfSaveL, Bool.and_eq_true, Bool.or_eq_true, Bool.not_eq_true', beq_iff_eq]
+    refine ⟨?_, wfSaveL_of_forall gOut gIn hasIv ts (fun k hk => h k (List.mem_cons_of_mem _ hk))⟩
+    rcases h t (List.mem_cons_self ..) with ⟨a, b, c⟩ | ⟨a, b, c, d⟩ | a
+    · exact Or.inl (Or.inl ⟨⟨a, b⟩, c⟩)
+    · exact Or.inl (Or.inr ⟨⟨⟨a, b⟩, c⟩, d⟩)
+    · exact Or.inr a
+
+theorem wfSave_node {g : Bool} {s : Info} {i : Nat} {iv : Option Nat} {h : List Nat} {kids : List Tree}
+    (hs : ((!s.hasInterval || s.hasI) && (!s.hasHist || s.hasI) &&
+      (!s.hasHist || (s.saveSelf == 1 && (g || s.hasInterval)))) = true)
+    (hk : ∀ k ∈ kids, (k.info.saveOut = 1 ∧ k.info.saveIn = 0 ∧ wfSave g k = true) ∨
+      (s.hasInterval = true ∧ k.info.saveOut = 0 ∧ k.info.saveIn = 1 ∧ wfSave (g || s.hasInterval) k = true) ∨
+      anyHist k = false) :
+    wfSave g (.node s i iv h kids) = true := by
+  simp only [wfSave]
+  rw [Bool.and_eq_true]
+  exact ⟨hs, wfSaveL_of_forall _ _ _ kids hk⟩
+
+theorem wfSetL_of_forall (m : Nat) (deep : List (List Nat)) : ∀ kids : List Tree,
+    (∀ k ∈ kids, wfSet (m * k.info.setCalls) (strip k.info.tag deep) k = true) → wfSetL m deep kids = true
+  | [], _ => rfl
+  | t :: ts, h => by
+    simp only [wfSetL, Bool.and_eq_true]
+    exact ⟨h t (List.mem_cons_self ..), wfSetL_of_forall m deep ts (fun k hk => h k (List.mem_cons_of_mem _ hk))⟩
+
+theorem wfSet_node {m : Nat} {deep : List (List Nat)} {s : Info} {i : Nat} {iv : Option Nat} {h : List Nat}
+    {kids : List Tree} (hs : (!s.hasInterval || setHit m s deep) = true)
+    (hk : ∀ k ∈ kids, wfSet (m * k.info.setCalls) (strip k.info.tag (setDeepNext m s deep)) k = true) :
+    wfSet m deep (.node s i iv h kids) = true := by
+  simp only [wfSet, Bool.and_eq_true]
+  exact ⟨hs, wfSetL_of_forall _ _ kids hk⟩
+
+theorem AllL_of_forall (P : Info → Nat → Option Nat → List Nat → Prop) : ∀ kids : List Tree,
+    (∀ k ∈ kids, AllT P k) → AllL P kids
+  | [], _ => trivial
+  | t :: ts, h => ⟨h t (List.mem_cons_self ..), AllL_of_forall P ts (fun k hk => h k (List.mem_cons_of_mem _ hk))⟩
+
+theorem AllL_forall (P : Info → Nat → Option Nat → List Nat → Prop) : ∀ kids : List Tree,
+    AllL P kids → ∀ k ∈ kids, AllT P k
+  | [], _, k, hk => by cases hk
+  | t :: ts, h, k, hk => by
+    rcases List.mem_cons.1 hk with rfl | hk
+    · exact h.1
+    · exact AllL_forall P ts h.2 k hk
+
+theorem AllT_node {P : Info → Nat → Option Nat → List Nat → Prop} {s : Info} {i : Nat} {iv : Option Nat}
+    {h : List Nat} {kids : List Tree} (hs : P s i iv h) (hk : ∀ k ∈ kids, AllT P k) :
+    AllT P (.node s i iv h kids) :=
+  ⟨hs, AllL_of_forall P kids hk⟩
+
 /-! ### rows written by `k` successful iterations starting at counter `c` -/
 def rows (n : Option Nat) (c k : Nat) : List Nat := (List.range' c k).filter (gateOpen n)
 
